@@ -278,6 +278,7 @@ def sm2Dispatch (toks : List String) : Option String :=
   | "sm2verify" :: r => some (sm2verify r) | "sm2verifyder" :: r => some (sm2verifyder r)
   | "sm2enc" :: r => some (sm2enc r) | "sm2dec" :: r => some (sm2dec r)
   | "sm2verifye" :: r => some (sm2verifye r)
+  | "tlssigv" :: k :: r => if k == "ecdsa" || k == "sm2" then some (sm2verifyder r) else some "bad-op"
   | "sm2signok" :: r => some (sm2signok r) | "sm2signderok" :: r => some (sm2signderok r)
   | "sm2obj" :: r => some (sm2obj sm2sign sm2verify sm2enc sm2dec r)
   | "sm2kex" :: r => some (sm2kex r) | "sm2kexbad" :: r => some (sm2kexbad r)
